@@ -2376,13 +2376,13 @@ class Converter:
         path = Path(path).expanduser().resolve()
         rows = []
         delimiter = sep or "\t"
-        with path.open() as file_in:
+        with path.open(newline="") as file_in:
             reader = csv.reader(file_in, delimiter=delimiter)
             _header = next(reader) if header else None
             for row in reader:
                 row[column] = func(row[column]) or ""
                 rows.append(row)
-        with path.open("w") as file_out:
+        with path.open("w", newline="") as file_out:
             writer = csv.writer(file_out, delimiter=delimiter)
             if _header:
                 writer.writerow(_header)
